@@ -303,20 +303,7 @@ def run_benign(repo_root, name, prop):
 
 
 # which properties look at which source files (a benign patch is run against the properties that read the files it touches)
-FILE_PROPS = {
-    "gaftools/conversion.py": ["C01", "C02", "C03", "C04", "C16"],
-    "gaftools/utils.py": ["C01", "C02", "C03", "C07", "C09", "C14", "C16", "C17"],
-    "gaftools/gaf.py": ["C02", "C04", "C12", "C16", "C17", "C19", "C20"],
-    "gaftools/gfa.py": ["C03", "C06", "C07", "C09", "C12", "C14", "C15", "C17"],
-    "gaftools/cli/view.py": ["C01", "C02", "C03", "C04", "C05", "C17"],
-    "gaftools/cli/index.py": ["C03", "C04", "C17"],
-    "gaftools/cli/sort.py": ["C08", "C09", "C10", "C17"],
-    "gaftools/cli/realign.py": ["C11", "C12", "C13", "C16"],
-    "gaftools/cli/order_gfa.py": ["C06", "C07", "C18"],
-    "gaftools/cli/stat.py": ["C19"],
-    "gaftools/cli/phase.py": ["C16", "C20"],
-    "gaftools/cli/find_path.py": ["C14"],
-}
+from gv.props.common import FILE_PROPS  # noqa: E402
 
 
 def benign_jobs(repo_root, only):
